@@ -115,7 +115,7 @@ func runsFor(prop, tier string) []run {
 		c4.InitOps = []string{"W:0:16", "SnapU", "W:0:16", "SnapA"}
 		c4.MaxSnaps = 5
 		return []run{
-			{"2blk-held-holes", c4, pick(4, 6), minutes(pickf(0.6, 8))},
+			{"2blk-held-holes", c4, pick(5, 6), minutes(pickf(1.0, 8))},
 			{"3blk-aligned-punch", c, pick(5, 7), minutes(pickf(1.7, 16))},
 			{"3blk-from-two-user-snapshots", c3, pick(3, 4), minutes(pickf(0.9, 8))},
 			{"2blk-mixed-punch", c2, pick(5, 7), minutes(pickf(0.8, 8))},
